@@ -38,7 +38,11 @@ type pbfTracer struct {
 	Event    func(st int, ev *pbfEvent) int
 	Edge     func(st int, cond ast.Expr, val bool, fi *FuncInfo) (int, bool)
 	NoInline func(fn *types.Func) bool // functions to report as "call" instead of entering them
-	MaxDepth int
+	// RangeExit, when set, is asked on the edge that leaves a range loop because it has no (more) elements; it can
+	// update the state or declare the edge infeasible (a range over a collection known to be non-empty cannot be
+	// left before its first iteration).
+	RangeExit func(st int, rs *ast.RangeStmt, fi *FuncInfo) (int, bool)
+	MaxDepth  int
 
 	incomplete []string // reasons why some path could not be followed (recursion, depth)
 	memo       map[pbfMemoKey][]pbfExit
@@ -73,6 +77,7 @@ type pbfResKey struct {
 type pbfMemoKey struct {
 	body *ast.BlockStmt
 	st   int
+	call *ast.CallExpr // innermost inlined call: what a parameter is bound to depends on it
 }
 
 func (v *pbfPkgView) newTracer() *pbfTracer {
@@ -145,11 +150,15 @@ func (t *pbfTracer) emit(st int, ev *pbfEvent) int {
 	if st == pbfDead || t.Event == nil {
 		return st
 	}
+	defer t.v.withCalls(ev.calls)()
 	return t.Event(st, ev)
 }
 
 func (t *pbfTracer) runBody(fi *FuncInfo, body *ast.BlockStmt, st0 int, depth int, calls []*ast.CallExpr) []pbfExit {
-	key := pbfMemoKey{body, st0}
+	key := pbfMemoKey{body: body, st: st0}
+	if len(calls) > 0 {
+		key.call = calls[len(calls)-1]
+	}
 	if r, ok := t.memo[key]; ok {
 		return r
 	}
@@ -258,8 +267,14 @@ func (t *pbfTracer) runBody(fi *FuncInfo, body *ast.BlockStmt, st0 int, depth in
 					continue
 				}
 				s, ok := p.st, true
+				if cond == nil && !val && t.RangeExit != nil && b.Kind == cfg.KindRangeLoop {
+					// the edge that leaves a range loop (no more elements): a rule may know it cannot be taken yet
+					if rs, isRange := b.Stmt.(*ast.RangeStmt); isRange {
+						s, ok = t.rangeExit(calls, p.st, rs, fi)
+					}
+				}
 				if cond != nil && t.Edge != nil {
-					s, ok = t.Edge(p.st, cond, val, fi)
+					s, ok = t.edge(calls, p.st, cond, val, fi)
 					// what the edge says about the results of inlined helpers: `if h() {` taken means the expression h
 					// returned on this path is true, and so on for negations / conjunctions
 					if ok && len(p.exprs) > 0 {
@@ -276,7 +291,7 @@ func (t *pbfTracer) runBody(fi *FuncInfo, body *ast.BlockStmt, st0 int, depth in
 								}
 							}
 							if re, found := p.exprs[key]; found && key != nil && ok {
-								s, ok = t.Edge(s, re.e, ft.val, re.fi)
+								s, ok = t.edge(calls, s, re.e, ft.val, re.fi)
 							}
 						}
 					}
@@ -541,7 +556,7 @@ func (t *pbfTracer) inlineOnly(m *pbfModel, interesting func(u *unit) bool) {
 // hasChanOp reports whether the unit lexically contains a channel operation.
 func (m *pbfModel) hasChanOp(u *unit) bool {
 	for _, op := range m.chanOps() {
-		if op.u == u {
+		if op.u.base() == u {
 			return true
 		}
 	}
